@@ -256,7 +256,7 @@ def main():
                 "evidence_file": f"/verif/evidence/{pid}.json",
                 "replay_cmd_template": f"/venv/bin/python -m pgverif check {pid} --tier quick  # replay file {{path}} names the obligation",
                 "engine": "pgverif",
-                "level_claimed": {"category": "other", "text": c["text"] + (" Also decided: " + ADDED[pid] if pid in ADDED else "") + (" Round 3: " + ROUND3[pid] if pid in ROUND3 else "") + (" " + RN[pid]["r45"] + " " + RN[pid]["audit"] if pid in RN else ""),
+                "level_claimed": {"category": "other", "text": c["text"] + (" Also decided: " + ADDED[pid] if pid in ADDED else "") + (" Round 3: " + ROUND3[pid] if pid in ROUND3 else "") + (" " + RN[pid]["r45"] + " " + RN[pid]["audit"] + " " + RN[pid].get("r89", "") if pid in RN else ""),
                                   "design_ref": c["design"]},
                 "level_note": TRUST + " " + c.get("note", ""),
                 "technique": c["technique"],
